@@ -209,9 +209,9 @@ theorem rel_new (ch : Nat) : Rel (Midi.new ch) {} := by
 
 /-- **C04, main statement.** -/
 theorem tracks (ch : Nat) (es : List MidiEv)
-    (hb : Bounded (Nat.min ch 15) (Midi.new ch) {} es) :
+    (hb : Bounded (min ch 15) (Midi.new ch) {} es) :
     let m := (Midi.new ch).after es
-    let s := specAfter (Nat.min ch 15) (Midi.new ch) {} es
+    let s := specAfter (min ch 15) (Midi.new ch) {} es
     m.held = s.out ∧ m.gate = !s.out.isEmpty ∧ m.noteNum = s.note ∧ m.velocity = s.vel := by
   have h := run_rel (rel_new ch) es (by simpa [Midi.new] using hb)
   simp only [Midi.new] at h ⊢
